@@ -34,7 +34,10 @@ CONSTANTS Callers,        \* {1}: one thread; {1, 2}: two threads sharing one cl
           Dev_BudgetOffByOne,       \* attempt > retries instead of attempt >= retries
           Dev_PossiblySentIsNotSent,\* a failure after the pre-send region is classified NotSent
           Dev_CaseFoldMethod,       \* method classified case-insensitively
-          Dev_NoRecvTimeout         \* receive waits for ever on a silent peer
+          Dev_NoRecvTimeout,        \* receive waits for ever on a silent peer
+          Dev_ClampedBodyRead,      \* once the headers are parsed the receive size is clamped to the missing Content-Length
+                                    \* bytes: surplus that arrives after the header block is never pulled in (no forceEvict)
+          Dev_IdleBytesKept         \* bytes that arrive on a cached connection stay buffered (connection left in Sync mode)
 
 Idem(m) == m \in {"GET", "HEAD", "PUT", "DELETE", "OPTIONS", "TRACE"}
 Fold(m) == IF m = "get" THEN "GET" ELSE m
@@ -56,18 +59,20 @@ Applicable(m, s) ==
   /\ (m = "HEAD" /\ s.k \in {"resp_close", "resp_rst", "resp_silence", "ok_split"}) => (s.p \in {"status", "hdr", "last"} /\ s.v = "cl")
   /\ (m = "HEAD" /\ s.k = "bad") => s.v \in HeadBad
   /\ (m = "HEAD") => s.k # "ok_closedelim"
-  /\ (m = "HEAD" /\ s.k \in {"ok", "ok_surplus"}) => s.v = "cl"
+  /\ (m = "HEAD" /\ s.k \in {"ok", "ok_surplus"}) => (s.v = "cl" /\ s.p = "-")
+  /\ (m = "HEAD") => s.k # "ok_latesurplus"
 FreshOnly(s) == Class(s) \in {"connfail", "accfail", "sendfail"} \/ s.k \in {"send_short", "send_eagain"}
 Stale == [k |-> "stale", v |-> "-", p |-> "-"]
 
 VARIABLES pc, ri, meth, pre, bud, att, cur, fresh, stp, err, idle,  \* per caller
+          unread, foreign,      \* connections holding bytes nobody consumed; ghost: such bytes were read as a response
           lease, cache, conns,                                 \* shared: the client's lease / cache, the connections
           atts, fk, steps, script                              \* history: attempts of the current request, the case
-vars == <<pc, ri, meth, pre, bud, att, cur, fresh, stp, err, idle, lease, cache, conns, atts, fk, steps, script>>
+vars == <<pc, ri, meth, pre, bud, unread, foreign, att, cur, fresh, stp, err, idle, lease, cache, conns, atts, fk, steps, script>>
 
 None == [k |-> "-", v |-> "-", p |-> "-"]
 Init == /\ pc = [c \in Callers |-> "idle"] /\ ri = [c \in Callers |-> 1]
-        /\ meth = [c \in Callers |-> "-"] /\ pre = [c \in Callers |-> 0] /\ bud = [c \in Callers |-> 0] /\ att = [c \in Callers |-> 0]
+        /\ meth = [c \in Callers |-> "-"] /\ pre = [c \in Callers |-> 0] /\ unread = {} /\ foreign = FALSE /\ bud = [c \in Callers |-> 0] /\ att = [c \in Callers |-> 0]
         /\ cur = [c \in Callers |-> 0] /\ fresh = [c \in Callers |-> FALSE] /\ stp = [c \in Callers |-> None]
         /\ err = [c \in Callers |-> "none"] /\ idle = [c \in Callers |-> FALSE]
         /\ lease = 0 /\ cache = 0 /\ conns = <<>>
@@ -100,24 +105,24 @@ Start(c) == /\ pc[c] = "idle" /\ ri[c] <= NReq
             /\ att' = [att EXCEPT ![c] = 0] /\ atts' = [atts EXCEPT ![c] = <<>>] /\ fk' = [fk EXCEPT ![c] = {}]
             /\ steps' = [steps EXCEPT ![c] = <<>>] /\ err' = [err EXCEPT ![c] = "none"]
             /\ pc' = [pc EXCEPT ![c] = "lease"]
-            /\ UNCHANGED <<ri, cur, fresh, stp, lease, cache, conns, script>>
+            /\ UNCHANGED <<ri, cur, fresh, stp, lease, cache, conns, script, unread, foreign>>
 
 AcquireLease(c) == /\ pc[c] = "lease" /\ lease = 0
                    /\ lease' = c /\ pc' = [pc EXCEPT ![c] = "cache"]
-                   /\ UNCHANGED <<ri, meth, pre, bud, att, cur, fresh, stp, err, idle, cache, conns, atts, fk, steps, script>>
+                   /\ UNCHANGED <<ri, meth, pre, bud, unread, foreign, att, cur, fresh, stp, err, idle, cache, conns, atts, fk, steps, script>>
 
 \* acquireConnection (1): reuse a cached, non-idle connection
 Reuse(c) == /\ pc[c] = "cache" /\ cache # 0 /\ ~idle[c]
             /\ cur' = [cur EXCEPT ![c] = cache] /\ fresh' = [fresh EXCEPT ![c] = FALSE]
             /\ pc' = [pc EXCEPT ![c] = "sync"]
-            /\ UNCHANGED <<ri, meth, pre, bud, att, stp, err, idle, lease, cache, conns, atts, fk, steps, script>>
+            /\ UNCHANGED <<ri, meth, pre, bud, unread, foreign, att, stp, err, idle, lease, cache, conns, atts, fk, steps, script>>
 EvictIdle(c) == /\ pc[c] = "cache" /\ cache # 0 /\ idle[c]
                 /\ SetConn(cache, FALSE, {}) /\ cache' = 0 /\ idle' = [idle EXCEPT ![c] = FALSE]
                 /\ pc' = [pc EXCEPT ![c] = "connect"]
-                /\ UNCHANGED <<ri, meth, pre, bud, att, cur, fresh, stp, err, lease, atts, fk, steps, script>>
+                /\ UNCHANGED <<ri, meth, pre, bud, unread, foreign, att, cur, fresh, stp, err, lease, atts, fk, steps, script>>
 Miss(c) == /\ pc[c] = "cache" /\ cache = 0
            /\ idle' = [idle EXCEPT ![c] = FALSE] /\ pc' = [pc EXCEPT ![c] = "connect"]
-           /\ UNCHANGED <<ri, meth, pre, bud, att, cur, fresh, stp, err, lease, cache, conns, atts, fk, steps, script>>
+           /\ UNCHANGED <<ri, meth, pre, bud, unread, foreign, att, cur, fresh, stp, err, lease, cache, conns, atts, fk, steps, script>>
 
 NewConn == Len(conns) + 1
 \* acquireConnection (3): connectSync fails (refused / timed out): pre-send region -> HttpRequestNotSentError
@@ -128,7 +133,7 @@ ConnectFails(c) == /\ pc[c] = "connect" /\ \E s \in StepSet :
                       /\ conns' = Append(conns, [open |-> FALSE, taint |-> {"failure"}])
                       /\ Note(c, s) /\ Attempt(c, NewConn, TRUE, TRUE, FALSE, "NotSent", TRUE, {})
                       /\ err' = [err EXCEPT ![c] = "NotSent"] /\ pc' = [pc EXCEPT ![c] = "decide"] /\ lease' = 0
-                      /\ UNCHANGED <<ri, meth, pre, bud, att, cur, fresh, stp, idle, cache, script>>
+                      /\ UNCHANGED <<ri, meth, pre, bud, unread, foreign, att, cur, fresh, stp, idle, cache, script>>
 \* the peer closes / resets the connection right at accept and the engine notices it (HUP / SO_ERROR) while completing the
 \* connect: connectSync fails, also NotSent (observed on the real client for both; which branch is taken is a race)
 ConnectResetEarly(c) == /\ pc[c] = "connect" /\ \E s \in StepSet :
@@ -136,7 +141,7 @@ ConnectResetEarly(c) == /\ pc[c] = "connect" /\ \E s \in StepSet :
                            /\ conns' = Append(conns, [open |-> FALSE, taint |-> {"failure"}])
                            /\ Note(c, s) /\ Attempt(c, NewConn, TRUE, TRUE, FALSE, "NotSent", TRUE, {})
                            /\ err' = [err EXCEPT ![c] = "NotSent"] /\ pc' = [pc EXCEPT ![c] = "decide"] /\ lease' = 0
-                           /\ UNCHANGED <<ri, meth, pre, bud, att, cur, fresh, stp, idle, cache, script>>
+                           /\ UNCHANGED <<ri, meth, pre, bud, unread, foreign, att, cur, fresh, stp, idle, cache, script>>
 \* acquireConnection (3)+(4): connected and published in the cache
 ConnectOk(c) == /\ pc[c] = "connect" /\ \E s \in StepSet :
                    /\ StepOK(c, s) /\ Class(s) # "connfail"
@@ -144,11 +149,11 @@ ConnectOk(c) == /\ pc[c] = "connect" /\ \E s \in StepSet :
                    /\ cache' = NewConn /\ cur' = [cur EXCEPT ![c] = NewConn] /\ fresh' = [fresh EXCEPT ![c] = TRUE]
                    /\ stp' = [stp EXCEPT ![c] = s] /\ Note(c, s)
                    /\ pc' = [pc EXCEPT ![c] = "sync"]
-                   /\ UNCHANGED <<ri, meth, pre, bud, att, err, idle, lease, atts, script>>
+                   /\ UNCHANGED <<ri, meth, pre, bud, unread, foreign, att, err, idle, lease, atts, script>>
 
 \* setReadMode(Sync): succeeds for every session id (even one the engine has already closed)
 SetSyncMode(c) == /\ pc[c] = "sync" /\ pc' = [pc EXCEPT ![c] = "send"]
-                  /\ UNCHANGED <<ri, meth, pre, bud, att, cur, fresh, stp, err, idle, lease, cache, conns, atts, fk, steps, script>>
+                  /\ UNCHANGED <<ri, meth, pre, bud, unread, foreign, att, cur, fresh, stp, err, idle, lease, cache, conns, atts, fk, steps, script>>
 
 \* sendSync on a cached connection the peer has closed in the meantime: nothing reaches the peer; the failure shows
 \* up in the receive loop and is NOT provably unsent
@@ -156,12 +161,12 @@ SendStale(c) == /\ pc[c] = "send" /\ ~fresh[c] /\ ~conns[cur[c]].open
                 /\ Note(c, Stale) /\ Attempt(c, cur[c], FALSE, FALSE, FALSE, "Other", FALSE, conns[cur[c]].taint)
                 /\ SetConn(cur[c], FALSE, {"failure"}) /\ cache' = KeepOnFailure(cur[c])
                 /\ Fail(c, "Other")
-                /\ UNCHANGED <<ri, meth, pre, bud, att, cur, fresh, stp, idle, script>>
+                /\ UNCHANGED <<ri, meth, pre, bud, unread, foreign, att, cur, fresh, stp, idle, script>>
 \* a request arriving on a kept-alive connection: the peer picks its step now
 PickCached(c) == /\ pc[c] = "send" /\ ~fresh[c] /\ conns[cur[c]].open /\ stp[c] = None /\ \E s \in StepSet :
                     /\ StepOK(c, s) /\ ~FreshOnly(s)
                     /\ stp' = [stp EXCEPT ![c] = s] /\ Note(c, s)
-                    /\ UNCHANGED <<pc, ri, meth, pre, bud, att, cur, fresh, err, idle, lease, cache, conns, atts, script>>
+                    /\ UNCHANGED <<pc, ri, meth, pre, bud, unread, foreign, att, cur, fresh, err, idle, lease, cache, conns, atts, script>>
 \* the request is handed to the engine; what the peer's step lets through
 Send(c) == /\ pc[c] = "send" /\ stp[c] # None
            /\ LET s == stp[c]  n == cur[c]  t == conns[n].taint IN
@@ -176,6 +181,9 @@ Send(c) == /\ pc[c] = "send" /\ stp[c] # None
                                             /\ stp' = [stp EXCEPT ![c] = None] /\ UNCHANGED <<steps, fk>>
                 [] OTHER                 -> /\ pc' = [pc EXCEPT ![c] = "recv"]
                                             /\ UNCHANGED <<err, lease, cache, conns, atts, stp, steps, fk>>
+           \* bytes left over on the connection would be read as (the beginning of) this request's response
+           /\ foreign' = (foreign \/ (Class(stp[c]) \notin {"accfail", "sendfail", "reqcut"} /\ cur[c] \in unread))
+           /\ unread' = unread \ {cur[c]}
            /\ UNCHANGED <<ri, meth, pre, bud, att, cur, fresh, idle, script>>
 
 \* receive loop: the response is cut, the peer stalls (receiveSync times out), the response is malformed, or complete
@@ -189,7 +197,7 @@ RecvFails(c) == /\ pc[c] = "recv" /\ Class(stp[c]) \in {"noresp", "respcut", "st
                       /\ IF e = "Framing" THEN /\ err' = [err EXCEPT ![c] = e] /\ pc' = [pc EXCEPT ![c] = "decide"] /\ lease' = 0
                                           ELSE Fail(c, e)
                 /\ stp' = [stp EXCEPT ![c] = None]
-                /\ UNCHANGED <<ri, meth, pre, bud, att, cur, fresh, idle, fk, steps, script>>
+                /\ UNCHANGED <<ri, meth, pre, bud, unread, foreign, att, cur, fresh, idle, fk, steps, script>>
 SuccessTaint(s) == CASE s.k \in {"ok_connclose", "ok_http10"} -> {"close_signal"}
                      [] s.k = "ok_surplus"                    -> {"surplus"}
                      [] s.k = "ok_closedelim"                 -> {"close_delim"}
@@ -198,15 +206,21 @@ Kept(s) == /\ ReuseCfg
            /\ \/ SuccessTaint(s) = {}
               \/ Dev_KeepAfterCloseSignal /\ SuccessTaint(s) = {"close_signal"}
               \/ Dev_KeepAfterSurplus /\ SuccessTaint(s) = {"surplus"}
+              \/ Dev_ClampedBodyRead /\ s.k = "ok_surplus" /\ s.v = "cl" /\ s.p \in {"h_bs", "hb_bs_s"}
 RecvOk(c) == /\ pc[c] = "recv" /\ Class(stp[c]) = "success"
              /\ LET s == stp[c]  n == cur[c]
                     open == s.k \notin {"ok_then_fin", "ok_closedelim"}   \* peer closed / half-closed afterwards
                 IN /\ Attempt(c, n, fresh[c], TRUE, TRUE, "none", FALSE, conns[n].taint)
                    /\ SetConn(n, open, SuccessTaint(s))
-                   /\ cache' = IF Kept(s) THEN cache ELSE Dropped(n)
+                   \* ok_latesurplus: the surplus comes in a segment of its own after the complete response; whether the
+                   \* client still sees it before it completes the exchange is a race (weaker reading: no taint)
+                   /\ IF s.k = "ok_latesurplus" /\ ReuseCfg THEN cache' \in {cache, Dropped(n)}
+                      ELSE cache' = IF Kept(s) THEN cache ELSE Dropped(n)
+                   \* ok_idle: bytes arrive while the connection sits in the cache; nobody reads them: they are discarded
+                   /\ unread' = IF s.k = "ok_idle" /\ s.v = "stale" /\ Dev_IdleBytesKept /\ Kept(s) THEN unread \cup {n} ELSE unread
              /\ err' = [err EXCEPT ![c] = "none"] /\ pc' = [pc EXCEPT ![c] = "finish"] /\ lease' = 0
              /\ stp' = [stp EXCEPT ![c] = None]
-             /\ UNCHANGED <<ri, meth, pre, bud, att, cur, fresh, idle, fk, steps, script>>
+             /\ UNCHANGED <<ri, meth, pre, bud, foreign, att, cur, fresh, idle, fk, steps, script>>
 
 \* performRequest's catch blocks
 GiveUp(c) == LET e == err[c] IN
@@ -216,7 +230,7 @@ GiveUp(c) == LET e == err[c] IN
 RetryDecision(c) == /\ pc[c] = "decide"
                     /\ IF GiveUp(c) THEN pc' = [pc EXCEPT ![c] = "finish"] /\ UNCHANGED att
                        ELSE pc' = [pc EXCEPT ![c] = "lease"] /\ att' = [att EXCEPT ![c] = @ + 1]     \* Backoff
-                    /\ UNCHANGED <<ri, meth, pre, bud, cur, fresh, stp, err, idle, lease, cache, conns, atts, fk, steps, script>>
+                    /\ UNCHANGED <<ri, meth, pre, bud, unread, foreign, cur, fresh, stp, err, idle, lease, cache, conns, atts, fk, steps, script>>
 
 Result(c) == CASE err[c] = "none" -> "ok" [] err[c] = "Framing" -> "framing" [] err[c] = "NotSent" -> "notsent" [] OTHER -> "other"
 Finish(c) == /\ pc[c] = "finish"
@@ -225,7 +239,7 @@ Finish(c) == /\ pc[c] = "finish"
                               steps |-> steps[c], res |-> Result(c),
                               conns |-> [i \in 1..Len(atts[c]) |-> IF atts[c][i].visible THEN atts[c][i].conn ELSE 0]])]
              /\ ri' = [ri EXCEPT ![c] = @ + 1] /\ pc' = [pc EXCEPT ![c] = "idle"]
-             /\ UNCHANGED <<meth, pre, bud, att, cur, fresh, stp, err, idle, lease, cache, conns, atts, fk, steps>>
+             /\ UNCHANGED <<meth, pre, bud, unread, foreign, att, cur, fresh, stp, err, idle, lease, cache, conns, atts, fk, steps>>
 
 Next == \E c \in Callers :
           \/ Start(c) \/ AcquireLease(c) \/ Reuse(c) \/ EvictIdle(c) \/ Miss(c)
@@ -244,6 +258,9 @@ AttemptBound == \A c \in Callers : Len(atts[c]) <= bud[c] + 1
 FramingNotRetried == \A c \in Callers : \A i \in 1..(Len(atts[c]) - 1) : atts[c][i].err # "Framing"
 \* a connection that saw a failure, a close signal, surplus bytes or a close-delimited body is never used again
 NoReuse == \A c \in Callers : \A i \in DOMAIN atts[c] : ~atts[c][i].fresh => atts[c][i].taint = {}
+\* weaker reading for bytes that arrive while a connection is idle (the client cannot know): they are never taken as
+\* (part of) the response to the next request
+OwnResponse == ~foreign
 \* the lease: one exchange at a time
 LeaseExclusive == Cardinality({c \in Callers : pc[c] \in {"cache", "connect", "sync", "send", "recv"}}) <= 1
                   /\ \A c \in Callers : pc[c] \in {"cache", "connect", "sync", "send", "recv"} => lease = c
